@@ -1,4 +1,678 @@
-/-! Model/C17 — executable model (core Lean only; imports only NibabelModel.Basic.* / other Model files). -/
+/-! Model/C17 — executable model for C17 "GIFTI images round-trip through XML for every encoding"
+    (core Lean only).
+
+    Three parts, each citing the Python it models (line numbers of the pinned tree after the `fix:` commits):
+
+    (a) container operations of `GiftiImage` on the list `darrays`            gifti/gifti.py:663-821
+    (b) the parser's event machine incl. character-data collation            gifti/parse_gifti_fast.py:143-400
+    (c) `read_data_block` (decode a <Data> payload)                           gifti/parse_gifti_fast.py:37-135
+        and its writer-side counterpart `_data_tag_element`                   gifti/gifti.py:380-400
+
+    External (NOT modelled, enter as parameters `Ext` with a written contract): base64, zlib, conversion of one
+    ASCII number token to a value of the array dtype (np.loadtxt), expat itself (the model starts at the handler
+    calls expat makes).  Code tables (`Recoder`s) enter as the parameter `Codes`, instantiated by the REGENERATED
+    file Generated/C17Codes.lean. -/
 namespace Nb.C17
+
+/-- character data / attribute values: a Python `str` as its list of code points -/
+abbrev Text := List Char
+
+inductive Err where
+  | index    -- IndexError (list.pop out of range)
+  | other    -- any other exception of the real code (GiftiParseError, KeyError, ValueError, AttributeError …)
+deriving DecidableEq, Repr
+
+/-! ## (a) container operations ------------------------------------------------------------------- -/
+
+/-- a data array as far as the container operations are concerned: object identity + intent code -/
+structure DA where
+  id : Nat
+  intent : Nat
+deriving DecidableEq, Repr
+
+/-- `add_gifti_data_array` (gifti.py:663-672): `self.darrays.append(dataarr)` -/
+def addArray (l : List DA) (d : DA) : List DA := l ++ [d]
+
+/-- `remove_gifti_data_array(ith)` (gifti.py:674-676): `self.darrays.pop(ith)`; Python index semantics
+    (negative counts from the end, out of range raises IndexError). -/
+def removeAt (l : List DA) (i : Int) : Except Err (List DA) :=
+  let n : Int := l.length
+  let j : Int := if i < 0 then i + n else i
+  if j < 0 ∨ n ≤ j then .error .index else .ok (l.eraseIdx j.toNat)
+
+/-- `remove_gifti_data_array_by_intent` as it is NOW (gifti.py:678-681):
+    `self.darrays[:] = [d for d in self.darrays if d.intent != intent2remove]` -/
+def removeByIntent (l : List DA) (it : Nat) : List DA := l.filter (fun d => d.intent != it)
+
+/-- Python `for x in l: if p x: l.remove(x)` — the list iterator keeps an INDEX `i`; each round reads `l[i]`
+    (stop when `i ≥ len l`), advances `i`, and `l.remove(x)` deletes the FIRST element equal to `x`.
+    `fuel` bounds the number of rounds (`len l + 1` always suffices: `i` grows, `len l` never does). -/
+def origLoop {α} [BEq α] (p : α → Bool) : Nat → List α → Nat → List α
+  | 0, l, _ => l
+  | fuel + 1, l, i =>
+    match l[i]? with
+    | none => l
+    | some x => if p x then origLoop p fuel (l.erase x) (i + 1) else origLoop p fuel l (i + 1)
+
+/-- the ORIGINAL (pre-fix) `remove_gifti_data_array_by_intent`:
+    `for dele in self.darrays: if dele.intent == intent2remove: self.darrays.remove(dele)` -/
+def removeByIntentOrig (l : List DA) (it : Nat) : List DA :=
+  origLoop (fun d => d.intent == it) (l.length + 1) l 0
+
+/-- what the original loop computes on duplicate-free lists: the element after each removed one is skipped
+    (kept without being looked at) -/
+def skipAfterRemoval {α} (p : α → Bool) : List α → List α
+  | [] => []
+  | x :: xs =>
+    if p x then
+      match xs with
+      | [] => []
+      | y :: ys => y :: skipAfterRemoval p ys
+    else x :: skipAfterRemoval p xs
+
+/-- `get_arrays_from_intent` (gifti.py:683-686): `[x for x in self.darrays if x.intent == it]` -/
+def getArraysFromIntent (l : List DA) (it : Nat) : List DA := l.filter (fun d => d.intent == it)
+
+/-- shape of the value `agg_data` returns (gifti.py:811-821) -/
+inductive Agg where
+  | stack (ids : List Nat)    -- np.column_stack of the selected arrays (all intents are TIME_SERIES)
+  | single (id : Nat)         -- exactly one array selected: that array itself
+  | tuple (ids : List Nat)    -- tuple of the selected arrays, in image order
+deriving DecidableEq, Repr
+
+def Agg.ids : Agg → List Nat
+  | .stack l => l
+  | .single i => [i]
+  | .tuple l => l
+
+/-- the arrays `agg_data(intent_code)` aggregates (gifti.py:811) -/
+def aggSel (l : List DA) (code : Option Nat) : List DA :=
+  match code with
+  | none => l
+  | some c => getArraysFromIntent l c
+
+/-- how the selected arrays are returned (gifti.py:812-821); `ts` = code of NIFTI_INTENT_TIME_SERIES -/
+def aggOf (ts : Nat) (ds : List DA) : Agg :=
+  if ds ≠ [] ∧ ds.all (fun d => d.intent == ts) then .stack (ds.map (·.id))
+  else match ds with
+    | [d] => .single d.id
+    | _ => .tuple (ds.map (·.id))
+
+/-- `agg_data(intent_code)` for a non-tuple argument (gifti.py:811-821) -/
+def aggOne (ts : Nat) (l : List DA) (code : Option Nat) : Agg := aggOf ts (aggSel l code)
+
+/-- `agg_data(tuple_of_codes)` (gifti.py:808-809): one result per code, in the order asked -/
+def aggTuple (ts : Nat) (l : List DA) (codes : List Nat) : List Agg := codes.map (fun c => aggOne ts l (some c))
+
+/-! ## byte codec and index order (used by (c)) ---------------------------------------------------- -/
+
+/-- little-endian bytes of the `w`-byte bit pattern `v` -/
+def encLE : Nat → Nat → List Nat
+  | 0, _ => []
+  | w + 1, v => (v % 256) :: encLE w (v / 256)
+
+def decLE : List Nat → Nat
+  | [] => 0
+  | b :: bs => b + 256 * decLE bs
+
+def encElem (big : Bool) (w v : Nat) : List Nat := if big then (encLE w v).reverse else encLE w v
+def decElem (big : Bool) (bs : List Nat) : Nat := decLE (if big then bs.reverse else bs)
+
+/-- `n` consecutive groups of `w` bytes -/
+def splitEvery (w : Nat) : Nat → List Nat → List (List Nat)
+  | 0, _ => []
+  | n + 1, bs => bs.take w :: splitEvery w n (bs.drop w)
+
+/-- `np.frombuffer(buff, dtype)` for an itemsize-`w` dtype of byte order `big`: the flat element list
+    (bit patterns); ValueError when the buffer is not a whole number of elements -/
+def fromBuffer (big : Bool) (w : Nat) (bs : List Nat) : Except Err (List Nat) :=
+  if w = 0 ∨ bs.length % w ≠ 0 then .error .other
+  else .ok ((splitEvery w (bs.length / w) bs).map (decElem big))
+
+/-- bytes of a flat element list -/
+def toBytes (big : Bool) (w : Nat) (vals : List Nat) : List Nat := vals.flatMap (encElem big w)
+
+def prod : List Nat → Nat
+  | [] => 1
+  | n :: ns => n * prod ns
+
+/-- C-order (row-major) flat position ↔ multi-index -/
+def unravelC : List Nat → Nat → List Nat
+  | [], _ => []
+  | _ :: ns, k => (k / prod ns) :: unravelC ns (k % prod ns)
+
+def ravelC : List Nat → List Nat → Nat
+  | _ :: ns, i :: is => i * prod ns + ravelC ns is
+  | _, _ => 0
+
+/-- F-order (column-major) flat position ↔ multi-index -/
+def unravelF : List Nat → Nat → List Nat
+  | [], _ => []
+  | n :: ns, k => (k % n) :: unravelF ns (k / n)
+
+def ravelF : List Nat → List Nat → Nat
+  | n :: ns, i :: is => i + n * ravelF ns is
+  | _, _ => 0
+
+/-- An array is (shape, elements listed in C order).  `toOrder colMajor shape elems` = the elements in the order
+    `ndarray.tobytes(order)` / `ravel(order)` emits them. -/
+def toOrder (colMajor : Bool) (shape : List Nat) (elems : List Nat) : List Nat :=
+  if colMajor then (List.range (prod shape)).map (fun k => elems.getD (ravelC shape (unravelF shape k)) 0)
+  else elems
+
+/-- `flat.reshape(shape, order=…)`, result listed in C order -/
+def fromOrder (colMajor : Bool) (shape : List Nat) (flat : List Nat) : List Nat :=
+  if colMajor then (List.range (prod shape)).map (fun j => flat.getD (ravelF shape (unravelC shape j)) 0)
+  else flat
+
+/-! ## code tables (Recoders), external functions --------------------------------------------------- -/
+
+/-- The `Recoder` tables the parser consults.  Each alias table maps every STRING alias the recoder accepts
+    to the code (`recoder.code[str]`); regenerated from the source into Generated/C17Codes.lean. -/
+structure Codes where
+  intent : List (String × Nat)          -- nifti1.intent_codes: label and niistring → code
+  dtype : List (String × Nat)           -- nifti1.data_type_codes: label and niistring → code
+  dtinfo : List (Nat × Nat × Char)      -- data type code → (itemsize, numpy kind) for the numeric u/i/f types
+  xform : List (String × Nat)           -- nifti1.xform_codes
+  order : List (String × Nat)           -- gifti.util.array_index_order_codes (label, npcode)
+  encoding : List (String × Nat)        -- gifti_encoding_codes (label, giistring, specs)
+  endian : List (String × Nat)          -- gifti_endian_codes (giistring, specs, byteorder)
+  encAscii : Nat
+  encB64 : Nat
+  encGz : Nat
+  encExt : Nat
+  endBig : Nat
+  endLittle : Nat
+  ordRow : Nat
+  ordCol : Nat
+  timeSeries : Nat
+  /-- defaults of `GiftiDataArray()` (gifti.py:453-497): intent, datatype, encoding, endian (sys.byteorder), ind_ord -/
+  daDefaults : Nat × Nat × Nat × Nat × Nat
+
+def lookup (tbl : List (String × Nat)) (s : Text) : Option Nat :=
+  (tbl.find? (fun p => p.1 == String.ofList s)).map (·.2)
+
+/-- external functions with their contracts (see Props/C17: `Ext.Good`) -/
+structure Ext where
+  /-- base64.b64decode; none = binascii.Error -/
+  b64dec : Text → Option (List Nat)
+  /-- zlib.decompress; none = zlib.error -/
+  inflate : List Nat → Option (List Nat)
+  /-- one whitespace-free ASCII token → bit pattern of the value in a dtype of (kind, itemsize); none = ValueError -/
+  parseNum : Char → Nat → Text → Option Nat
+
+/-! ## (c) read_data_block ----------------------------------------------------------------------------- -/
+
+/-- decoded array: data type code, shape, elements (bit patterns, listed in C order) -/
+structure Arr where
+  dt : Nat
+  shape : List Nat
+  elems : List Nat
+deriving DecidableEq, Repr
+
+def isAsciiSpace (c : Char) : Bool :=
+  c == ' ' || c == '\t' || c == '\n' || c == '\r' || c == '\x0b' || c == '\x0c'
+
+/-- split on runs of ASCII whitespace (no empty tokens) -/
+def splitWs (t : Text) : List Text :=
+  let rec go : List Char → List Char → List Text
+    | [], cur => if cur.isEmpty then [] else [cur.reverse]
+    | c :: cs, cur =>
+      if isAsciiSpace c then (if cur.isEmpty then go cs [] else cur.reverse :: go cs [])
+      else go cs (c :: cur)
+  go t []
+
+def splitLines (t : Text) : List Text :=
+  let rec go : List Char → List Char → List Text
+    | [], cur => [cur.reverse]
+    | c :: cs, cur => if c == '\n' then cur.reverse :: go cs [] else go cs (c :: cur)
+  go t []
+
+/-- `np.loadtxt(StringIO(data), ndmin=1)` up to number conversion: the non-blank rows of tokens; all rows must
+    have the same number of columns (ValueError otherwise) -/
+def loadRows (t : Text) : Except Err (List (List Text)) :=
+  let rows := (splitLines t).map splitWs |>.filter (fun r => !r.isEmpty)
+  match rows with
+  | [] => .ok []
+  | r :: rs => if rs.all (fun r' => r'.length == r.length) then .ok rows else .error .other
+
+/-- fields of a `GiftiDataArray` that `read_data_block` reads -/
+structure BlockSpec where
+  encoding : Nat
+  endian : Nat
+  datatype : Nat
+  dims : List Nat
+  indOrd : Nat
+
+/-- byte order of the declared endian code (:76-77; the 'undef' code makes `newbyteorder` raise) -/
+def endianOf (K : Codes) (e : Nat) : Option Bool :=
+  if e == K.endBig then some true else if e == K.endLittle then some false else none
+
+/-- numpy order of the ArrayIndexingOrder code (:80); true = 'F' -/
+def orderOf (K : Codes) (o : Nat) : Option Bool :=
+  if o == K.ordCol then some true else if o == K.ordRow then some false else none
+
+/-- :83-84 `np.loadtxt(StringIO(data), dtype, ndmin=1).reshape(shape, order=order)`; StringIO(None) is empty.
+    The loaded table has shape (rows, cols) (squeezed by loadtxt, which does not change either ravel order). -/
+def decodeAscii (X : Ext) (kind : Char) (w : Nat) (col : Bool) (dims : List Nat) (dt : Nat)
+    (data : Option Text) : Except Err Arr :=
+  match loadRows (data.getD []) with
+  | .error e => .error e
+  | .ok rows =>
+    let ncol := (rows.head?.map List.length).getD 0
+    match rows.flatten.mapM (X.parseNum kind w) with
+    | none => .error .other
+    | some vals =>
+      let flat := toOrder col [rows.length, ncol] vals
+      if flat.length ≠ prod dims then .error .other
+      else .ok ⟨dt, dims, fromOrder col dims flat⟩
+
+/-- :128-135 `base64.b64decode(data.encode('ascii'))` (data=None raises AttributeError), `zlib.decompress`
+    unless B64BIN, `np.frombuffer(buff, dtype).reshape(shape, order=order)` -/
+def decodeBinary (X : Ext) (gz big : Bool) (w : Nat) (col : Bool) (dims : List Nat) (dt : Nat)
+    (data : Option Text) : Except Err Arr :=
+  match data with
+  | none => .error .other
+  | some txt =>
+    match X.b64dec txt with
+    | none => .error .other
+    | some dec =>
+      match (if gz then X.inflate dec else some dec) with
+      | none => .error .other
+      | some buff =>
+        match fromBuffer big w buff with
+        | .error e => .error e
+        | .ok flat =>
+          if flat.length ≠ prod dims then .error .other
+          else .ok ⟨dt, dims, fromOrder col dims flat⟩
+
+/-- `read_data_block(darray, fname=None, data, mmap)` (parse_gifti_fast.py:37-135) for in-memory XML. -/
+def readDataBlock (K : Codes) (X : Ext) (s : BlockSpec) (data : Option Text) : Except Err Arr :=
+  -- :70-73 encoding label must be one of ASCII, B64BIN, B64GZ, External
+  if !(s.encoding == K.encAscii || s.encoding == K.encB64 || s.encoding == K.encGz || s.encoding == K.encExt) then
+    .error .other
+  else
+    match endianOf K s.endian, K.dtinfo.find? (fun r => r.1 == s.datatype), orderOf K s.indOrd with
+    | some big, some (_, w, kind), some col =>
+      if s.encoding == K.encAscii then decodeAscii X kind w col s.dims s.datatype data
+      else if s.encoding == K.encExt then .error .other      -- :89-93 refused for in-memory XML
+      else decodeBinary X (s.encoding != K.encB64) big w col s.dims s.datatype data
+    | _, _, _ => .error .other
+
+/-- writer side, `_data_tag_element` (gifti.py:380-400) for the Base64 encodings:
+    `np.asanyarray(dataarray, dtype).tobytes(order)`, optionally `zlib.compress`, then `base64.b64encode`.
+    `big` is the byte order of the machine that writes (the real writer always uses and declares the native
+    order, gifti.py:508); `b64enc`/`deflate` are the external encoders. -/
+def writeDataBlock (b64enc : List Nat → Text) (deflate : List Nat → List Nat)
+    (gz : Bool) (big : Bool) (w : Nat) (col : Bool) (shape : List Nat) (elems : List Nat) : Text :=
+  let out := toBytes big w (toOrder col shape elems)
+  b64enc (if gz then deflate out else out)
+
+/-- a concrete executable base64 decoder (what the driver plugs into `Ext.b64dec`): characters outside the
+    alphabet are discarded (Python's non-validating mode), `=` ends the data; wrong length/padding = error -/
+def b64val (c : Char) : Option Nat :=
+  if 'A' ≤ c ∧ c ≤ 'Z' then some (c.toNat - 65)
+  else if 'a' ≤ c ∧ c ≤ 'z' then some (c.toNat - 97 + 26)
+  else if '0' ≤ c ∧ c ≤ '9' then some (c.toNat - 48 + 52)
+  else if c == '+' then some 62
+  else if c == '/' then some 63
+  else none
+
+def b64groups : List Nat → List Nat
+  | a :: b :: c :: d :: rest =>
+    let v := ((a * 64 + b) * 64 + c) * 64 + d
+    (v / 65536) :: (v / 256 % 256) :: (v % 256) :: b64groups rest
+  | [a, b, c] => let v := (a * 64 + b) * 64 + c; [v / 1024, v / 4 % 256]
+  | [a, b] => [(a * 64 + b) / 16]
+  | _ => []
+
+def b64decode (t : Text) : Option (List Nat) :=
+  let sig := t.filter (fun c => (b64val c).isSome || c == '=')
+  let body := sig.takeWhile (· != '=')
+  let pad := (sig.dropWhile (· != '=')).takeWhile (· == '=') |>.length
+  let sx := body.filterMap b64val
+  let r := sx.length % 4
+  if r == 1 then none
+  else if r == 0 then some (b64groups sx)
+  else if pad + r ≥ 4 then some (b64groups sx)
+  else none
+
+/-! ## (b) the parser event machine ------------------------------------------------------------------ -/
+
+/-- what expat delivers to the three handlers (xmlutils.py:107-109) -/
+inductive Event where
+  | start (tag : String) (attrs : List (String × Text))
+  | chars (chunk : Text)
+  | stop (tag : String)
+deriving Repr
+
+/-- `GiftiMetaData` = insertion-ordered dict str → str -/
+abbrev MD := List (Text × Text)
+
+def MD.set : MD → Text → Text → MD
+  | [], k, v => [(k, v)]
+  | (k', v') :: rest, k, v => if k' = k then (k', v) :: rest else (k', v') :: MD.set rest k v
+
+structure Label where
+  key : Int := 0
+  red : Option Text := none       -- the attribute text; float() of it is external
+  green : Option Text := none
+  blue : Option Text := none
+  alpha : Option Text := none
+  label : Option Text := none     -- attribute `label` exists only after character data was flushed
+deriving Repr
+
+structure CoordSys where
+  dataspace : Nat := 0
+  xformspace : Nat := 0
+  /-- rows of float64 bit patterns as np.loadtxt reads them; `none` = the constructor's np.identity(4) -/
+  xform : Option (List (List Nat)) := none
+deriving Repr
+
+structure DArr where
+  intent : Nat
+  datatype : Nat
+  indOrd : Nat
+  encoding : Nat
+  endian : Nat
+  dims : List Nat := []
+  extFname : Text := []
+  extOffset : Int := 0
+  dmeta : Option MD := some []
+  coordsys : CoordSys := {}
+  data : Option Arr := none
+deriving Repr
+
+structure Img where
+  version : Text := ['1', '.', '0']
+  gmeta : MD := []
+  /-- `labeltable.labels`; `none` = the Python `None` a stray `</Label>` appends (:332) -/
+  labels : List (Option Label) := []
+  darrays : List DArr := []
+deriving Repr
+
+inductive WriteTo where
+  | none | name | value | label | dataSpace | transformedSpace | matrixData | data
+deriving DecidableEq, Repr
+
+/-- parser attributes (parse_gifti_fast.py:144-170) -/
+structure PState where
+  img : Option Img := none
+  fsm : List String := []
+  nvpair : Option (Text × Text) := none
+  /-- `self.da`: always the object appended last to `img.darrays`, hence "is some" + last element of the list -/
+  haveDa : Bool := false
+  /-- `self.coordsys`: the object lives in `img.darrays[idx].coordsys`; we keep the owner's index -/
+  coordsys : Option Nat := none
+  lata : Option (List (Option Label)) := none
+  label : Option Label := none
+  metaGlobal : Option MD := none
+  metaDa : Option MD := none
+  writeTo : WriteTo := .none
+  /-- `self._char_blocks` -/
+  blocks : Option (List Text) := none
+deriving Repr
+
+/-- Python `str.isspace` for one code point (what `str.strip()` removes) -/
+def isPySpace (c : Char) : Bool :=
+  let n := c.toNat
+  (9 ≤ n && n ≤ 13) || (28 ≤ n && n ≤ 32) || n == 0x85 || n == 0xa0 || n == 0x1680 ||
+  (0x2000 ≤ n && n ≤ 0x200a) || n == 0x2028 || n == 0x2029 || n == 0x202f || n == 0x205f || n == 0x3000
+
+def strip (t : Text) : Text := ((t.dropWhile isPySpace).reverse.dropWhile isPySpace).reverse
+
+/-- Python `int(str)` on the canonical decimal spellings the writer produces -/
+def pyInt (t : Text) : Option Int := (String.ofList (strip t)).toInt?
+
+def attr (attrs : List (String × Text)) (k : String) : Option Text := (attrs.find? (·.1 == k)).map (·.2)
+
+def modifyLast {α} (f : α → α) : List α → List α
+  | [] => []
+  | [x] => [f x]
+  | x :: xs => x :: modifyLast f xs
+
+def modifyAt {α} (f : α → α) : List α → Nat → List α
+  | [], _ => []
+  | x :: xs, 0 => f x :: xs
+  | x :: xs, i + 1 => x :: modifyAt f xs i
+
+/-- `CharacterDataHandler` (parse_gifti_fast.py:336-347): append the chunk -/
+def onChars (st : PState) (c : Text) : PState :=
+  { st with blocks := some (st.blocks.getD [] ++ [c]) }
+
+/-- `''.join(self._char_blocks)` or None -/
+def joined (st : PState) : Option Text := st.blocks.map List.flatten
+
+/-- body of `flush_chardata` (:349-395) after the collector has been read and reset:
+    `st` has `blocks = none`, `data` is the joined text (None when nothing was collected) -/
+def flushCore (K : Codes) (X : Ext) (st : PState) (data : Option Text) : Except Err PState :=
+  -- :353 nothing to do for empty elements, except <Data>
+  if st.writeTo ≠ .data ∧ data = none then .ok st
+  else
+    let txt := data.getD []     -- in every branch but `data` the text is non-None here
+    match st.writeTo with
+    | .none => .ok st
+    | .name =>
+      match st.nvpair with
+      | some (_, v) => .ok { st with nvpair := some (strip txt, v) }
+      | none => .error .other
+    | .value =>
+      match st.nvpair with
+      | some (k, _) => .ok { st with nvpair := some (k, strip txt) }
+      | none => .error .other
+    | .dataSpace =>
+      match st.coordsys, st.img, lookup K.xform (strip txt) with
+      | some idx, some img, some code =>
+        .ok { st with img := some { img with darrays := modifyAt (fun d => { d with coordsys := { d.coordsys with dataspace := code } }) img.darrays idx } }
+      | _, _, _ => .error .other
+    | .transformedSpace =>
+      match st.coordsys, st.img, lookup K.xform (strip txt) with
+      | some idx, some img, some code =>
+        .ok { st with img := some { img with darrays := modifyAt (fun d => { d with coordsys := { d.coordsys with xformspace := code } }) img.darrays idx } }
+      | _, _, _ => .error .other
+    | .matrixData =>
+      -- np.loadtxt(StringIO(data)) with the default float64: every token must be a number
+      match st.coordsys, st.img, loadRows txt with
+      | some idx, some img, .ok rows =>
+        match rows.mapM (fun r => r.mapM (X.parseNum 'f' 8)) with
+        | none => .error .other
+        | some vals => .ok { st with img := some { img with darrays := modifyAt (fun d => { d with coordsys := { d.coordsys with xform := some vals } }) img.darrays idx } }
+      | _, _, _ => .error .other
+    | .data =>
+      match st.haveDa, st.img with
+      | true, some img =>
+        match img.darrays.getLast? with
+        | some d =>
+          match readDataBlock K X ⟨d.encoding, d.endian, d.datatype, d.dims, d.indOrd⟩ data with
+          | .ok arr => .ok { st with img := some { img with darrays := modifyLast (fun d => { d with data := some arr }) img.darrays } }
+          | .error e => .error e
+        | none => .error .other
+      | _, _ => .error .other
+    | .label =>
+      match st.label with
+      | some l => .ok { st with label := some { l with label := some (strip txt) } }
+      | none => .error .other
+
+/-- `flush_chardata` (:349-395) -/
+def flush (K : Codes) (X : Ext) (st : PState) : Except Err PState :=
+  flushCore K X { st with blocks := none } (joined st)
+
+def optInt (o : Option Text) : Except Err (Option Int) :=
+  match o with
+  | none => .ok none
+  | some t => match pyInt t with
+    | some i => .ok (some i)
+    | none => .error .other
+
+def optCode (tbl : List (String × Nat)) (o : Option Text) (dflt : Nat) : Except Err Nat :=
+  match o with
+  | none => .ok dflt
+  | some t => match lookup tbl t with
+    | some c => .ok c
+    | none => .error .other
+
+/-- dims: `for i in range(num_dim): if f'Dim{i}' in attrs: dims.append(int(attrs[..]))`, then
+    `assert len(dims) == num_dim` (:237-244) -/
+def readDims (attrs : List (String × Text)) (numDim : Nat) : Except Err (List Nat) :=
+  (List.range numDim).mapM (fun i =>
+    match attr attrs ("Dim" ++ toString i) with
+    | some t => match pyInt t with
+      | some v => if 0 ≤ v then .ok v.toNat else .error .other
+      | none => .error .other
+    | none => .error .other)
+
+/-- `StartElementHandler` after the flush (:177-277) -/
+def startCore (K : Codes) (st : PState) (name : String) (attrs : List (String × Text)) : Except Err PState :=
+  if name = "GIFTI" then
+    let img : Img := {}
+    let img := match attr attrs "Version" with
+      | some v => { img with version := v }
+      | none => img
+    match optInt (attr attrs "NumberOfDataArrays") with
+    | .ok _ => .ok { st with img := some img, fsm := st.fsm ++ ["GIFTI"] }
+    | .error e => .error e
+  else if name = "MetaData" then
+    let fsm := st.fsm ++ ["MetaData"]
+    if fsm.length = 2 then .ok { st with fsm := fsm, metaGlobal := some [] }
+    else .ok { st with fsm := fsm, metaDa := some [] }
+  else if name = "MD" then .ok { st with nvpair := some ([], []), fsm := st.fsm ++ ["MD"] }
+  else if name = "Name" then
+    if st.nvpair.isNone then .error .other else .ok { st with writeTo := .name }
+  else if name = "Value" then
+    if st.nvpair.isNone then .error .other else .ok { st with writeTo := .value }
+  else if name = "LabelTable" then .ok { st with lata := some [], fsm := st.fsm ++ ["LabelTable"] }
+  else if name = "Label" then
+    match optInt (attr attrs "Index"), optInt (attr attrs "Key") with
+    | .ok ix, .ok ky =>
+      let key : Int := match ky, ix with
+        | some k, _ => k
+        | none, some i => i
+        | none, none => 0
+      .ok { st with label := some { key := key, red := attr attrs "Red", green := attr attrs "Green",
+                                    blue := attr attrs "Blue", alpha := attr attrs "Alpha" },
+                    writeTo := .label }
+    | _, _ => .error .other
+  else if name = "DataArray" then
+    let (dI, dT, dE, dN, dO) := K.daDefaults
+    match optCode K.intent (attr attrs "Intent") dI, optCode K.dtype (attr attrs "DataType") dT,
+          optCode K.order (attr attrs "ArrayIndexingOrder") dO,
+          optInt (attr attrs "Dimensionality"),
+          optCode K.encoding (attr attrs "Encoding") dE, optCode K.endian (attr attrs "Endian") dN,
+          (match attr attrs "ExternalFileOffset" with
+           | none => Except.ok (0 : Int)
+           | some t => if t.isEmpty then .ok 0 else match pyInt t with
+             | some v => .ok v
+             | none => .error Err.other),
+          st.img with
+    | .ok it, .ok dt, .ok ord, .ok nd, .ok enc, .ok en, .ok off, some img =>
+      let numDim := (nd.getD 0).toNat     -- range() of a negative number is empty
+      match readDims attrs numDim with
+      | .ok dims =>
+        if (nd.getD 0) < 0 then .error .other      -- assert len(dims) == num_dim
+        else
+          let da : DArr := { intent := it, datatype := dt, indOrd := ord, encoding := enc, endian := en,
+                             dims := dims, extFname := (attr attrs "ExternalFileName").getD [], extOffset := off }
+          .ok { st with img := some { img with darrays := img.darrays ++ [da] }, haveDa := true,
+                        fsm := st.fsm ++ ["DataArray"] }
+      | .error e => .error e
+    | _, _, _, _, _, _, _, _ => .error .other
+  else if name = "CoordinateSystemTransformMatrix" then
+    match st.img with
+    | some img =>
+      if img.darrays.isEmpty then .error .other
+      else
+        let idx := img.darrays.length - 1
+        .ok { st with img := some { img with darrays := modifyLast (fun d => { d with coordsys := {} }) img.darrays },
+                      coordsys := some idx, fsm := st.fsm ++ ["CoordinateSystemTransformMatrix"] }
+    | none => .error .other
+  else if name = "DataSpace" then
+    if st.coordsys.isNone then .error .other else .ok { st with writeTo := .dataSpace }
+  else if name = "TransformedSpace" then
+    if st.coordsys.isNone then .error .other else .ok { st with writeTo := .transformedSpace }
+  else if name = "MatrixData" then
+    if st.coordsys.isNone then .error .other else .ok { st with writeTo := .matrixData }
+  else if name = "Data" then .ok { st with writeTo := .data }
+  else .ok st
+
+/-- `EndElementHandler` after the flush (:284-334) -/
+def stopCore (st : PState) (name : String) : Except Err PState :=
+  if name = "GIFTI" then
+    if st.fsm.isEmpty then .error .other else .ok { st with fsm := st.fsm.dropLast }
+  else if name = "MetaData" then
+    if st.fsm.isEmpty then .error .other
+    else
+      let fsm := st.fsm.dropLast
+      if fsm.length = 1 then
+        match st.img, st.metaGlobal with
+        | some img, some m => .ok { st with fsm := fsm, img := some { img with gmeta := m }, metaGlobal := none }
+        | _, _ => .error .other       -- setter raises TypeError for None
+      else
+        match st.img with
+        | some img =>
+          if img.darrays.isEmpty then .error .other
+          else .ok { st with fsm := fsm, metaDa := none,
+                             img := some { img with darrays := modifyLast (fun d => { d with dmeta := st.metaDa }) img.darrays } }
+        | none => .error .other
+  else if name = "MD" then
+    if st.fsm.isEmpty then .error .other
+    else
+      match st.nvpair with
+      | some (k, v) =>
+        let st := { st with fsm := st.fsm.dropLast, nvpair := none }
+        match st.metaGlobal, st.metaDa with
+        | some g, none => .ok { st with metaGlobal := some (MD.set g k v) }
+        | none, some d => .ok { st with metaDa := some (MD.set d k v) }
+        | _, _ => .ok st
+      | none => .error .other
+  else if name = "LabelTable" then
+    if st.fsm.isEmpty then .error .other
+    else
+      match st.img, st.lata with
+      | some img, some ls => .ok { st with fsm := st.fsm.dropLast, img := some { img with labels := ls }, lata := none }
+      | _, _ => .error .other
+  else if name = "DataArray" then
+    if st.fsm.isEmpty then .error .other else .ok { st with fsm := st.fsm.dropLast }
+  else if name = "CoordinateSystemTransformMatrix" then
+    if st.fsm.isEmpty then .error .other else .ok { st with fsm := st.fsm.dropLast, coordsys := none }
+  else if name = "DataSpace" ∨ name = "TransformedSpace" ∨ name = "MatrixData" ∨ name = "Name" ∨ name = "Value"
+          ∨ name = "Data" then
+    .ok { st with writeTo := .none }
+  else if name = "Label" then
+    match st.lata with
+    | some ls => .ok { st with lata := some (ls ++ [st.label]), label := none, writeTo := .none }
+    | none => .error .other
+  else .ok st
+
+/-- one handler call -/
+def step (K : Codes) (X : Ext) (st : PState) : Event → Except Err PState
+  | .chars c => .ok (onChars st c)
+  | .start name attrs =>
+    match flush K X st with
+    | .ok st' => startCore K st' name attrs
+    | .error e => .error e
+  | .stop name =>
+    match flush K X st with
+    | .ok st' => stopCore st' name
+    | .error e => .error e
+
+def runFrom (K : Codes) (X : Ext) : PState → List Event → Except Err PState
+  | st, [] => .ok st
+  | st, e :: es =>
+    match step K X st e with
+    | .ok st' => runFrom K X st' es
+    | .error err => .error err
+
+/-- the parse result `parser.img` after all events (None when no <GIFTI> element was seen) -/
+def run (K : Codes) (X : Ext) (es : List Event) : Except Err (Option Img) :=
+  match runFrom K X {} es with
+  | .ok st => .ok st.img
+  | .error e => .error e
+
+/-- merge every maximal run of adjacent character-data events into one event -/
+def canon : List Event → List Event
+  | .chars a :: .chars b :: rest => canon (.chars (a ++ b) :: rest)
+  | e :: rest => e :: canon rest
+  | [] => []
+termination_by l => l.length
 
 end Nb.C17
